@@ -48,6 +48,27 @@ theorem no_cache (gb cp rp t0 ttl ei rhi : Int) :
   · intro a; simp [a]
   · intro a; simp [a]
 
+/-- **The roll-back rebuilds exactly the key the insertion stored** (C13's "a reply that could not be delivered withdraws the
+    record"): `replay_remove` looks up `(first 16 MAC bytes, (time0 + ttl) mod 2^32)` - the same expiry expression and the same
+    16-byte copy from the credential's MAC as `replay_insert` - once, and frees the record exactly when one was found. -/
+theorem remove_rebuilds_the_insert_key (rh gb cp rp t0 ttl ei rhi rhr : Int) (h : rh ≠ 0 ∧ cp ≠ 0 ∧ rp ≠ 0) :
+    (replay_remove rh gb cp t0 ttl rhr).get "rnode.data.t_expired" (-1) = (replay_insert rh gb cp rp t0 ttl ei rhi).get "r.data.t_expired" (-2) ∧
+    (replay_remove rh gb cp t0 ttl rhr).events.take 2 = [("copy:rnode.data.mac<-c.mac", [16]), ("hash_remove", [])] ∧
+    ((replay_remove rh gb cp t0 ttl rhr).ret = if rhr ≠ 0 then 0 else -1) ∧
+    ((replay_remove rh gb cp t0 ttl rhr).count "replay_free" = if rhr ≠ 0 then 1 else 0) := by
+  have hi := (record_is_mac_and_expiry rh gb cp rp t0 ttl ei rhi h).1
+  obtain ⟨h1, h2, h3⟩ := h
+  have hi' : (replay_insert rh gb cp rp t0 ttl ei rhi).get "r.data.t_expired" (-2) = (t0 + ttl) % 4294967296 := by
+    unfold replay_insert
+    by_cases a : rhi ≠ 0
+    · simp [h1, h2, h3, a, KOut.get, KOut.written, wrapU32]
+    · by_cases b : ei = 17
+      · simp [h1, h2, h3, a, b, KOut.get, KOut.written, wrapU32]
+      · by_cases c : ei = 22 <;> simp [h1, h2, h3, a, b, c, KOut.get, KOut.written, wrapU32]
+  rw [hi']
+  unfold replay_remove
+  by_cases a : rhr ≠ 0 <;> simp [h1, h2, a, KOut.get, KOut.written, KOut.count, wrapU32]
+
 example : (replay_insert 1 0 1 1 1000000 300 0 1).get "r.data.t_expired" (-1) = 1000300 := by decide
 example : (replay_insert 1 0 1 1 4294967295 300 0 1).get "r.data.t_expired" (-1) = 299 := by decide
 
